@@ -108,7 +108,9 @@ def _get_nearest_init_dirs(root: Path) -> list[Path]:
 
 def _get_mypy_build(files: list[str]) -> mypy_build.BuildResult:
     """Build a mypy checker and return the build result."""
-    mypyfiles, opt = mypy_main.process_options(files)
+    # The result must not depend on the directory in which the tool is started, so mypy does not search for a
+    # configuration file there (or in the home directory of the user)
+    mypyfiles, opt = mypy_main.process_options(["--config-file=", *files])
 
     # Disable the memory optimization of freeing ASTs when possible
     opt.preserve_asts = True
